@@ -136,4 +136,13 @@ theorem restart_recreates (mode : Mode) (R : Run K) (h : J mode R) (d : Disk K)
   · show R.st.pts.length = R.nkPrev
     exact h.nk.symm
 
+theorem stepsH_fst {H : Type} (policyH : H → Policy K) (stepH : H → State K → H)
+    (hind : ∀ h h', policyH h = policyH h') (h0 : H) :
+    ∀ (n : Nat) (rh : Run K × H), (stepsH policyH stepH n rh).1 = steps (policyH h0) n rh.1
+  | 0, _ => rfl
+  | n + 1, rh => by
+    simp only [stepsH, steps]
+    rw [stepsH_fst policyH stepH hind h0 n]
+    simp only [nextIterH, hind rh.2 h0]
+
 end WB.C11
